@@ -652,6 +652,15 @@ def stft_configs(tier):
                 for pad in (True, False):
                     out.append(dict(kind="stft", bank="tri", L=L, S=S, style=style, kaldi=kaldi,
                                     window=window, pad=pad, energy=True, log=True))
+    # option interactions and defaults: kaldi_shift together with the causal style (documented to
+    # matter for centered frames only), frame_style=None (resolved from the bank: tri -> centered,
+    # gammatone -> causal) with and without kaldi_shift, default window
+    for L, S in [(4, 1), (5, 2), (6, 3), (8, 8)]:
+        for bank in ("tri", "gammatone"):
+            for style, kaldi in (("causal", True), (None, False), (None, True)):
+                for window in WINDOWS:
+                    out.append(dict(kind="stft", bank=bank, L=L, S=S, style=style, kaldi=kaldi,
+                                    window=window, pad=True, energy=True, log=True))
     # complex bank / no energy / float32 on a sub-lattice
     for L, S in [(5, 2), (6, 2), (7, 3), (8, 8), (4, 1)]:
         for style, kaldi in (("causal", False), ("centered", False), ("centered", True)):
